@@ -144,7 +144,7 @@ def floors(tier):
             "cls:completion": 50, "cls:expr_selected": 10, "re:.*@Comparator\\.R\\.enter": 1000,
             "re:Variable@Comparator\\.L\\.enter": 100, "cache.check.hit": 200, "dedup.call": 500,
             "cls:nvars=3": 100, "cls:nvars=4": 50, "cls:exhaustive_two_variable_tree": 2000,
-            "cls:join_through_positional_term_arguments": 200, "cls:preceded_by_an_abandoned_evaluation": 2000,
+            "cls:join_through_positional_term_arguments": 200, "cls:preceded_by_an_abandoned_evaluation": 2000, "cls:preceded_by_an_evaluation_under_the_other_caching_switch": 500,
             "cls:feature_interaction_query": 1500, "cls:ix:d_is_the_e": 60, "cls:ix:e_le_sub_an": 60, "cls:ix:exists_an": 60,
             "cls:ix:d_in_conc_p": 100, "cls:ix:d_in_conc_esubs": 100, "cls:ix:d_in_conc_psubs": 60, "cls:ix:forall_subs": 60,
             "cls:ix:forall_items_an": 60, "cls:ix:forall_subs_vs_d": 60, "cls:ix:pred_le": 100}
@@ -194,13 +194,14 @@ def cases(spec, ctx):
         case["times"] = rng.choice([1, 2, 2, 3])
         case["take_first"] = rng.choice([0, 0, 0, 1, 2, 3])
         case["keep_first"] = rng.random() < 0.4
+        case["other_switch_first"] = rng.random() < 0.15
         yield case
 
 
 def _run(case, world, caching, times=1):
     r = multi.evaluate(case, world, caching=caching, form=case.get("form", "set_of"), how=case.get("how", "let"), times=times,
                        split_top_and=bool(case.get("split")), take_first=case.get("take_first", 0),
-                       keep_first=bool(case.get("keep_first")))
+                       keep_first=bool(case.get("keep_first")), first_under_other_switch=bool(case.get("other_switch_first")))
     return r if times > 1 else r[0]
 
 
@@ -217,6 +218,8 @@ def check_case(case, ctx):
         ctx.cls("cls:exhaustive_two_variable_tree")
     if case.get("take_first"):
         ctx.cls("cls:preceded_by_an_abandoned_evaluation")
+    if case.get("other_switch_first"):
+        ctx.cls("cls:preceded_by_an_evaluation_under_the_other_caching_switch")
     ctx.cls("cls:all_selected" if multi.all_selected(case) else "cls:subset_selected")
     ctx.cls("cls:caching_on" if case["caching"] else "cls:caching_off")
     if "E" in case["kinds"]:
